@@ -65,6 +65,14 @@ func c20RenegRefuse(r *rng, g, iters int) string {
 }
 
 func c20RenegOnce(r *rng, g int, big bool) string {
+	if big {
+		return c20RenegOnce3(r, g, 1)
+	}
+	return c20RenegOnce3(r, g, 0)
+}
+
+func c20RenegOnce3(r *rng, g int, kind int) string {
+	big := kind == 1
 	macE, keyE, ivE := r.bytes(32), r.block16(), r.block16() // what E writes under
 	macP, keyP, ivP := r.bytes(32), r.block16(), r.block16() // what the peer writes under
 	a, b := c20Pipe("e", "p", r.pick([]int{0, 0, 1000}))
@@ -181,10 +189,14 @@ func c20RenegOnce(r *rng, g int, big bool) string {
 		time.Sleep(time.Duration(r.intn(300)) * time.Microsecond)
 	}
 	time.Sleep(time.Duration(200+r.intn(2000)) * time.Microsecond)
-	if big {
-		// HelloRequest header announcing 0x010001 = 65537 bytes
+	switch kind {
+	case 1: // HelloRequest header announcing 0x010001 = 65537 bytes
 		b.Write(craftCBCRecord(macP, keyP, 22, uint64(k), r.block16(), []byte{0, 1, 0, 1}, c20MinPad(4)))
-	} else {
+	case 2: // six warning alerts (user_canceled) in a row
+		for j := 0; j < 6; j++ {
+			b.Write(craftCBCRecord(macP, keyP, 21, uint64(k+j), r.block16(), []byte{1, 90}, c20MinPad(2)))
+		}
+	default:
 		b.Write(craftCBCRecord(macP, keyP, 22, uint64(k), r.block16(), []byte{0, 0, 0, 0}, c20MinPad(4)))
 	}
 	var rerr error
@@ -222,11 +234,17 @@ func c20RenegOnce(r *rng, g int, big bool) string {
 	if big {
 		want = "exceeds maximum"
 	}
+	if kind == 2 {
+		want = "too many"
+	}
 	if rerr == nil || !strings.Contains(rerr.Error(), want) {
 		return "read-error-is-not-the-refusal:" + strings.ReplaceAll(errStr(rerr), " ", "_")
 	}
 	if !bytes.Equal(gotApp, sentApp) {
 		return "application-data-before-the-handshake-record-altered"
+	}
+	if kind == 2 && peerErr != nil && strings.Contains(peerErr.Error(), "remote error") && strings.Contains(peerErr.Error(), "unexpected message") {
+		peerErr = nil // the fatal alert that answers the sixth warning
 	}
 	if big && peerErr != nil && strings.Contains(peerErr.Error(), "remote error") && strings.Contains(peerErr.Error(), "internal error") {
 		peerErr = nil // the fatal alert the client sent: how the peer's stream is meant to end here
@@ -282,4 +300,92 @@ func (c *c20RandReader) Read(p []byte) (int, error) {
 	defer c.mu.Unlock()
 	copy(p, c.r.bytes(len(p)))
 	return len(p), nil
+}
+
+// C20 scenario "lrucache": one LRU client session cache (as shared by all connections of a client Config) used
+// directly by many goroutines with more keys than capacity: every Get returns nothing or a session that was Put
+// under that key, nothing panics, and (race-detector build) no race - Get moves the entry to the front, so it
+// writes, too.
+func init() {
+	c20Scenarios = append(c20Scenarios, &c20Scenario{name: "lrucache", custom: c20LRUCache})
+	c20Scenarios = append(c20Scenarios, &c20Scenario{name: "warnflood", custom: c20WarnFlood})
+}
+
+func c20LRUCache(r *rng, g, iters int) string {
+	fail := func(why string) string { return "ORACLE-FAIL:" + why + ":lrucache" }
+	capacity := 2 + r.intn(3)
+	nkeys := capacity + 1 + r.intn(3)
+	cache := gmtls.NewLRUClientSessionCache(capacity)
+	// values: per key a fixed set of session objects
+	vals := make([][]*gmtls.ClientSessionState, nkeys)
+	owner := map[*gmtls.ClientSessionState]int{}
+	for k := range vals {
+		for j := 0; j < 4; j++ {
+			v := new(gmtls.ClientSessionState)
+			vals[k] = append(vals[k], v)
+			owner[v] = k
+		}
+	}
+	var wg sync.WaitGroup
+	var bad int32
+	start := make(chan struct{})
+	n := 200 * iters
+	for gi := 0; gi < g; gi++ {
+		jr := newRng(r.u64())
+		wg.Add(1)
+		go func() {
+			defer wg.Done()
+			defer c20Recover("lrucache worker")
+			<-start
+			for i := 0; i < n; i++ {
+				k := jr.intn(nkeys)
+				key := "k" + string(rune('0'+k))
+				if jr.chance(1, 3) {
+					cache.Put(key, vals[k][jr.intn(4)])
+				} else if v, ok := cache.Get(key); ok {
+					if v == nil || owner[v] != k {
+						atomic.StoreInt32(&bad, 1)
+					}
+				}
+			}
+		}()
+	}
+	close(start)
+	wg.Wait()
+	if atomic.LoadInt32(&c20Panics) != 0 {
+		return fail("panic")
+	}
+	if atomic.LoadInt32(&bad) != 0 {
+		return fail("get-returns-a-session-of-another-key")
+	}
+	// afterwards (single-threaded): at most `capacity` keys are present
+	present := 0
+	for k := 0; k < nkeys; k++ {
+		if _, ok := cache.Get("k" + string(rune('0'+k))); ok {
+			present++
+		}
+	}
+	if present > capacity {
+		return fail("more-entries-than-capacity")
+	}
+	return "ok"
+}
+
+// "warnflood": Read and several Writes on one connection while the peer sends six warning alerts in a row: the
+// sixth is answered with a fatal unexpected_message alert from inside Read.
+func c20WarnFlood(r *rng, g, iters int) string {
+	fail := func(why string) string { return "ORACLE-FAIL:" + why + ":warnflood" }
+	rounds := 1 + iters/4
+	if rounds > 12 {
+		rounds = 12
+	}
+	for round := 0; round < rounds; round++ {
+		if res := c20RenegOnce3(r, g, 2); res != "" {
+			return fail(res)
+		}
+	}
+	if atomic.LoadInt32(&c20Panics) != 0 {
+		return fail("panic")
+	}
+	return "ok"
 }
